@@ -553,7 +553,7 @@ Lemma dec_flag conv b fd oa kids :
 Proof. intros H. unfold dec_feature'. rewrite H. reflexivity. Qed.
 
 Theorem enc_dec_feature_xmi tn f fd ct conv :
-  feat_okb s c ids tn f fd = true -> conv_spec f conv ->
+  feat_okb s c ids tn f fd = true -> (isa s tn T_ANNOTATION = true -> conv_spec f conv) ->
   enc_feature fmt_flt s c tn f fd = Ok ct ->
   dec_feature' s conv (isa s tn T_ANNOTATION) fd (attr_of (fd_xname fd) ct) (kids_of (fd_xname fd) ct)
   = do nx <- canon_feature s c f fd ;; Ok (norm_feat s fd (snd nx)).
@@ -576,7 +576,8 @@ Proof.
     destruct v0 as [|z| | | | | |]; try discriminate.
     destruct (slot f "sofa") as [| | | | | | |vn] eqn:SS; try discriminate.
     destruct (sofa_of_view c vn) as [so|] eqn:SV; [|discriminate].
-    pose proof (HC vn so SS SV) as CV.
+    assert (isa s tn T_ANNOTATION = true) as Hisa by (apply andb_prop in FL; apply FL).
+    pose proof (HC Hisa vn so SS SV) as CV.
     unfold kind_agreeb in HA. rewrite K in HA. apply andb_prop in HA. destruct HA as [HI HA]. apply eqb_prop in HI.
     destruct (wbranch s fd) eqn:W; try discriminate. cbn [is_coll_wkind] in HI.
     cbn [bind enc_value] in HE.
@@ -588,6 +589,277 @@ Proof.
   - cbn [bind] in HE. rewrite dec_flag by exact FL.
     pose proof (enc_dec_value fd v0 ct conv HA Hv HV HE) as G. unfold goal_val in G. rewrite G.
     destruct (canon_val s c fd v0); reflexivity.
+Qed.
+
+(* ---- the element of an ordinary (non-array) feature structure ---- *)
+Definition keys_ok (n : string) (ct : contrib) : Prop :=
+  (forall p, In p (fst ct) -> fst p = n) /\ (forall p, In p (snd ct) -> fst p = n).
+Lemma keys_none n : keys_ok n c_none.
+Proof. split; intros p []. Qed.
+Lemma keys_attr n a : keys_ok n (c_attr n a).
+Proof. split; intros p H; [destruct H as [<-|[]]; reflexivity|destruct H]. Qed.
+Lemma keys_kids n l : keys_ok n (c_kids n l).
+Proof.
+  split; intros p H; [destruct H|]. unfold c_kids in H. cbn [snd] in H. apply in_map_iff in H.
+  destruct H as [t [<- _]]. reflexivity.
+Qed.
+Lemma enc_value_keys n r k v ct : enc_value fmt_flt s c n r k v = Ok ct -> keys_ok n ct.
+Proof.
+  unfold enc_value. intros H.
+  destruct k;
+  repeat match goal with
+  | H : (do _ <- ?x ;; _) = Ok _ |- _ => destruct x eqn:?; cbn [bind] in H; try discriminate
+  | H : match ?x with _ => _ end = Ok _ |- _ => destruct x eqn:?; try discriminate
+  | H : Ok _ = Ok _ |- _ => injection H as <-
+  end; auto using keys_none, keys_attr, keys_kids.
+Qed.
+Lemma enc_feature_keys tn f fd ct : enc_feature fmt_flt s c tn f fd = Ok ct -> keys_ok (fd_xname fd) ct.
+Proof.
+  unfold enc_feature. destruct (memb (fd_name fd) ["xmiID"; "type"]).
+  { intros H. injection H as <-. apply keys_none. }
+  cbv zeta. intros H.
+  destruct (slot f (fd_name fd)); try (injection H as <-; apply keys_none);
+    (destruct (conv_out s c tn f (fd_xname fd) _) eqn:E; cbn [bind] in H; try discriminate;
+     apply (enc_value_keys _ _ _ _ _ H)).
+Qed.
+
+Lemma alookup_app {V} n (a b : list (string * V)) :
+  alookup n (a ++ b) = match alookup n a with Some v => Some v | None => alookup n b end.
+Proof.
+  induction a as [|[k v] a IH]; [reflexivity|]. cbn [app alookup]. destruct (String.eqb n k); [reflexivity|exact IH].
+Qed.
+Lemma alookup_nokey {V} n (a : list (string * V)) : (forall p, In p a -> fst p <> n) -> alookup n a = None.
+Proof.
+  induction a as [|[k v] a IH]; intros H; [reflexivity|]. cbn [alookup].
+  destruct (String.eqb n k) eqn:E.
+  - apply String.eqb_eq in E. exfalso. apply (H (k, v) (or_introl eq_refl)). symmetry. exact E.
+  - apply IH. intros p Hp. apply H. right. exact Hp.
+Qed.
+Definition kfilter (n : string) (l : list (string * string)) : list string :=
+  map snd (filter (fun p => String.eqb (fst p) n) l).
+Lemma kfilter_app n a b : kfilter n (a ++ b) = (kfilter n a ++ kfilter n b)%list.
+Proof. unfold kfilter. rewrite filter_app, map_app. reflexivity. Qed.
+Lemma kfilter_nokey n a : (forall p, In p a -> fst p <> n) -> kfilter n a = [].
+Proof.
+  unfold kfilter. induction a as [|p a IH]; intros H; [reflexivity|]. cbn [filter].
+  destruct (String.eqb (fst p) n) eqn:E.
+  - apply String.eqb_eq in E. exfalso. apply (H p (or_introl eq_refl)). exact E.
+  - apply IH. intros q Hq. apply H. right. exact Hq.
+Qed.
+
+Lemma flat_nokey (fds : list fdecl) (cs : list contrib) n :
+  Forall2 (fun fd ct => keys_ok (fd_xname fd) ct) fds cs -> (forall fd, In fd fds -> fd_xname fd <> n) ->
+  (forall p, In p (flat_map fst cs) -> fst p <> n) /\ (forall p, In p (flat_map snd cs) -> fst p <> n).
+Proof.
+  induction 1 as [|fd1 ct1 fds cs [J1 J2] HF IHF]; intros Hne; [split; intros p []|].
+  destruct IHF as [I1 I2]; [intros fd Hfd; apply Hne; right; exact Hfd|].
+  split; intros p Hp; cbn [flat_map] in Hp; apply in_app_or in Hp; destruct Hp as [Hp|Hp].
+  - rewrite (J1 p Hp). apply Hne. left. reflexivity.
+  - apply I1. exact Hp.
+  - rewrite (J2 p Hp). apply Hne. left. reflexivity.
+  - apply I2. exact Hp.
+Qed.
+Lemma lookup_flat (fds : list fdecl) (cs : list contrib) :
+  Forall2 (fun fd ct => keys_ok (fd_xname fd) ct) fds cs -> NoDup (map fd_xname fds) ->
+  forall fd ct, In (fd, ct) (combine fds cs) ->
+    alookup (fd_xname fd) (flat_map fst cs) = alookup (fd_xname fd) (fst ct)
+    /\ kfilter (fd_xname fd) (flat_map snd cs) = kfilter (fd_xname fd) (snd ct).
+Proof.
+  induction 1 as [|fd0 ct0 fds cs [K1 K2] HF IH]; intros ND fd ct Hin; [destruct Hin|].
+  cbn [map] in ND. inversion ND as [|? ? Hnot ND']; subst.
+  cbn [flat_map]. rewrite alookup_app, kfilter_app.
+  assert (forall fd', In fd' fds -> fd_xname fd' <> fd_xname fd0) as Hne.
+  { intros fd' Hi E. apply Hnot. rewrite <- E. apply in_map. exact Hi. }
+  cbn [combine In] in Hin. destruct Hin as [E|Hin].
+  - injection E as <- <-.
+    destruct (flat_nokey fds cs (fd_xname fd0) HF Hne) as [N1 N2].
+    rewrite (alookup_nokey _ _ N1), (kfilter_nokey _ _ N2), app_nil_r.
+    split; [destruct (alookup (fd_xname fd0) (fst ct0)); reflexivity|reflexivity].
+  - destruct (IH ND' fd ct Hin) as [I1 I2]. pose proof (Hne fd (in_combine_l _ _ _ _ Hin)) as Hn.
+    rewrite (alookup_nokey (fd_xname fd) (fst ct0)), (kfilter_nokey (fd_xname fd) (snd ct0)).
+    + split; assumption.
+    + intros p Hp. rewrite (K2 p Hp). intros E. apply Hn. symmetry. exact E.
+    + intros p Hp. rewrite (K1 p Hp). intros E. apply Hn. symmetry. exact E.
+Qed.
+
+Definition normN (feats : list fdecl) (nv : fname * cval) : fname * cval :=
+  match find (fun fd => String.eqb (fd_xname fd) (fst nv)) feats with
+  | Some fd => (fst nv, norm_feat s fd (snd nv))
+  | None => nv
+  end.
+Lemma find_self feats fd : NoDup (map fd_xname feats) -> In fd feats ->
+  find (fun fd' => String.eqb (fd_xname fd') (fd_xname fd)) feats = Some fd.
+Proof.
+  induction feats as [|g r IH]; intros ND Hi; [destruct Hi|]. cbn [map] in ND. inversion ND as [|? ? Hn ND']; subst.
+  cbn [find]. destruct Hi as [->|Hi].
+  - rewrite String.eqb_refl. reflexivity.
+  - destruct (String.eqb (fd_xname g) (fd_xname fd)) eqn:E.
+    + apply String.eqb_eq in E. exfalso. apply Hn. rewrite E. apply in_map. exact Hi.
+    + apply IH; assumption.
+Qed.
+Lemma insert_s_map {A B} (N : string * A -> string * B) x l : (forall y, fst (N y) = fst y) ->
+  insert_s (N x) (map N l) = map N (insert_s x l).
+Proof.
+  intros HN. induction l as [|y r IH]; [reflexivity|]. cbn [map insert_s]. rewrite !HN.
+  destruct (String.leb (fst x) (fst y)); [reflexivity|]. cbn [map]. rewrite IH. reflexivity.
+Qed.
+Lemma sort_s_map {A B} (N : string * A -> string * B) l : (forall y, fst (N y) = fst y) ->
+  sort_s (map N l) = map N (sort_s l).
+Proof.
+  intros HN. unfold sort_s. induction l as [|x r IH]; [reflexivity|]. cbn [map fold_right].
+  rewrite IH. apply insert_s_map. exact HN.
+Qed.
+Lemma normN_fst feats y : fst (normN feats y) = fst y.
+Proof. unfold normN. destruct (find _ feats); reflexivity. Qed.
+
+Lemma Forall2_combine_in {A B} (R : A -> B -> Prop) l l' x : Forall2 R l l' -> In x l -> exists y, In (x, y) (combine l l') /\ R x y.
+Proof.
+  induction 1 as [|a b l l' Hab HF IH]; intros Hi; [destruct Hi|]. destruct Hi as [->|Hi].
+  - exists b. split; [left; reflexivity|exact Hab].
+  - destruct (IH Hi) as [y [Hy Ry]]. exists y. split; [right; exact Hy|exact Ry].
+Qed.
+
+Lemma xattr_cons_other ns tag k v attrs kids n : n <> k -> xattr (mkX ns tag ((k, v) :: attrs) kids) n = alookup n attrs.
+Proof. intros H. unfold xattr. cbn [x_attrs alookup]. apply String.eqb_neq in H. rewrite H. reflexivity. Qed.
+
+Lemma dec_enc_feats tn f feats cs e ns tag i conv :
+  NoDup (map fd_xname feats) -> ~ In A_ID (map fd_xname feats) ->
+  forallb (feat_okb s c ids tn f) feats = true ->
+  (isa s tn T_ANNOTATION = true -> conv_spec f conv) ->
+  mapM (enc_feature fmt_flt s c tn f) feats = Ok cs ->
+  e = mkX ns tag ((A_ID, z2s i) :: flat_map fst cs) (flat_map snd cs) ->
+  mapM (fun fd => do v <- dec_feature parse_flt s conv (isa s tn T_ANNOTATION) e fd ;; Ok (fd_xname fd, v)) feats
+  = do fs <- mapM (canon_feature s c f) feats ;; Ok (map (normN feats) fs).
+Proof.
+  intros ND NI HF HC HM ->. apply mapM_inv in HM.
+  assert (Forall2 (fun fd ct => keys_ok (fd_xname fd) ct) feats cs) as HK.
+  { clear -HM. induction HM; constructor; auto. eapply enc_feature_keys. eassumption. }
+  transitivity (mapM (fun fd => do nx <- canon_feature s c f fd ;; Ok (normN feats nx)) feats).
+  - apply mapM_ext_in. intros fd Hfd.
+    destruct (Forall2_combine_in _ _ _ fd HM Hfd) as [ct [Hin HE]].
+    destruct (lookup_flat feats cs HK ND fd ct Hin) as [L1 L2].
+    rewrite dec_feature_eq.
+    assert (fd_xname fd <> A_ID) as NA by (intros E; apply NI; rewrite <- E; apply in_map; exact Hfd).
+    rewrite xattr_cons_other by exact NA. rewrite L1.
+    change (xkids (mkX ns tag ((A_ID, z2s i) :: flat_map fst cs) (flat_map snd cs)) (fd_xname fd))
+      with (kfilter (fd_xname fd) (flat_map snd cs)). rewrite L2.
+    change (kfilter (fd_xname fd) (snd ct)) with (kids_of (fd_xname fd) ct).
+    change (alookup (fd_xname fd) (fst ct)) with (attr_of (fd_xname fd) ct).
+    rewrite (enc_dec_feature_xmi tn f fd ct conv (forallb_In _ _ _ HF Hfd) HC HE).
+    rewrite canon_feature_eq. destruct (canon_val s c fd (slot f (fd_name fd))); cbn [bind snd]; try reflexivity.
+    unfold normN. cbn [fst snd]. rewrite (find_self feats fd ND Hfd). reflexivity.
+  - assert (forall l, mapM (fun fd => do nx <- canon_feature s c f fd ;; Ok (normN feats nx)) l
+                      = do fs <- mapM (canon_feature s c f) l ;; Ok (map (normN feats) fs)) as G.
+    { induction l as [|fd r IH]; [reflexivity|]. cbn [mapM].
+      destruct (canon_feature s c f fd); cbn [bind]; try reflexivity.
+      rewrite IH. destruct (mapM (canon_feature s c f) r); reflexivity. }
+    apply G.
+Qed.
+
+(* the decoded sofas of the document, as far as offsets are concerned: same ids and texts as the views, in order *)
+Definition sofas_track (g : cview -> csofa) : Prop :=
+  forall v, cs_id (g v) = s_xid (v_sofa v) /\ cs_text (g v) = s_text (v_sofa v).
+Lemma find_sofa g views v : sofas_track g -> NoDup (map (fun v => s_xid (v_sofa v)) views) -> In v views ->
+  find (fun cs => Z.eqb (cs_id cs) (s_xid (v_sofa v))) (map g views) = Some (g v).
+Proof.
+  intros HT. induction views as [|w r IH]; intros ND Hi; [destruct Hi|]. cbn [map] in ND. inversion ND as [|? ? Hn ND']; subst.
+  cbn [map find]. destruct (HT w) as [Ew _]. rewrite Ew. destruct Hi as [->|Hi].
+  - rewrite Z.eqb_refl. reflexivity.
+  - destruct (Z.eqb (s_xid (v_sofa w)) (s_xid (v_sofa v))) eqn:E.
+    + apply Z.eqb_eq in E. exfalso. apply Hn. rewrite E. apply (in_map (fun v => s_xid (v_sofa v))). exact Hi.
+    + apply IH; assumption.
+Qed.
+Lemma sofa_of_view_in vn so : sofa_of_view c vn = Some so -> exists v, In v (c_views c) /\ v_sofa v = so.
+Proof.
+  unfold sofa_of_view. destruct (find _ (c_views c)) as [v|] eqn:E; [|discriminate]. cbn [option_map].
+  intros H. injection H as <-. exists v. split; [|reflexivity]. apply find_some in E. apply E.
+Qed.
+Lemma conv_of_spec g f e :
+  sofas_track g -> NoDup (map (fun v => s_xid (v_sofa v)) (c_views c)) ->
+  (forall vn so, slot f "sofa" = VSofa vn -> sofa_of_view c vn = Some so -> xattr e "sofa" = Some (z2s (s_xid so))) ->
+  conv_spec f (conv_of (map g (c_views c)) e).
+Proof.
+  intros HT ND HX vn so SS SV z. unfold conv_of. rewrite (HX vn so SS SV), s2z_z2s.
+  destruct (sofa_of_view_in vn so SV) as [v [Hv <-]].
+  rewrite (find_sofa g _ v HT ND Hv). destruct (HT v) as [_ ->]. destruct (s_text (v_sofa v)); reflexivity.
+Qed.
+
+Lemma elem_sofa_attr tn f feats cs e ns tag i :
+  NoDup (map fd_xname feats) -> ~ In A_ID (map fd_xname feats) ->
+  forallb (feat_okb s c ids tn f) feats = true ->
+  existsb (fun fd => String.eqb (fd_name fd) "sofa" && String.eqb (fd_xname fd) "sofa"
+                     && match wbranch s fd with WSofa => true | _ => false end) feats = true ->
+  mapM (enc_feature fmt_flt s c tn f) feats = Ok cs ->
+  e = mkX ns tag ((A_ID, z2s i) :: flat_map fst cs) (flat_map snd cs) ->
+  forall vn so, slot f "sofa" = VSofa vn -> sofa_of_view c vn = Some so -> xattr e "sofa" = Some (z2s (s_xid so)).
+Proof.
+  intros ND NI HF HX HM -> vn so SS SV. apply mapM_inv in HM.
+  assert (Forall2 (fun fd ct => keys_ok (fd_xname fd) ct) feats cs) as HK.
+  { clear -HM. induction HM; constructor; auto. eapply enc_feature_keys. eassumption. }
+  apply existsb_exists in HX. destruct HX as [fd [Hfd HP]].
+  apply andb_prop in HP. destruct HP as [HP HW]. apply andb_prop in HP. destruct HP as [HN HXn].
+  apply String.eqb_eq in HN. apply String.eqb_eq in HXn.
+  destruct (Forall2_combine_in _ _ _ fd HM Hfd) as [ct [Hin HE]].
+  destruct (lookup_flat feats cs HK ND fd ct Hin) as [L1 _].
+  rewrite <- HXn. rewrite xattr_cons_other.
+  2:{ intros E. apply NI. rewrite <- E. apply in_map. exact Hfd. }
+  rewrite L1.
+  pose proof (forallb_In _ _ _ HF Hfd) as FO. unfold feat_okb in FO.
+  apply andb_prop in FO. destruct FO as [FO _]. apply andb_prop in FO. destruct FO as [FC _]. apply negb_true_iff in FC.
+  unfold enc_feature in HE. rewrite FC in HE. cbv zeta in HE. rewrite HN, SS in HE.
+  unfold conv_out in HE. rewrite HXn in HE.
+  change (String.eqb "sofa" "begin" || String.eqb "sofa" "end") with false in HE. rewrite andb_false_r in HE.
+  cbn [bind] in HE. destruct (wbranch s fd); try discriminate. cbn [enc_value] in HE. rewrite SV in HE.
+  injection HE as <-. rewrite HXn. apply attr_of_attr.
+Qed.
+
+Lemma opt_eqb_str o x : opt_eqb String.eqb o (Some x) = true -> o = Some x.
+Proof. destruct o as [y|]; cbn [opt_eqb]; [|discriminate]. intros H. apply String.eqb_eq in H. congruence. Qed.
+Lemma opt_eqb_z o x : opt_eqb Z.eqb o (Some x) = true -> o = Some x.
+Proof. destruct o as [y|]; cbn [opt_eqb]; [|discriminate]. intros H. apply Z.eqb_eq in H. congruence. Qed.
+Lemma nodups_NoDup l : nodups l = true -> NoDup l.
+Proof.
+  induction l as [|x r IH]; intros H; [constructor|]. cbn [nodups] in H. apply andb_prop in H. destruct H as [H1 H2].
+  constructor; [|apply IH; exact H2]. intros Hi. apply memb_In in Hi. rewrite Hi in H1. discriminate.
+Qed.
+Lemma not_array_not_str tn : is_array_name tn = false -> is_str_array tn = false.
+Proof.
+  unfold is_str_array. intros H. destruct (String.eqb tn T_STRING_ARRAY) eqn:E; [|reflexivity].
+  apply String.eqb_eq in E. subst. discriminate.
+Qed.
+Lemma x_id_cons ns tag i attrs kids : x_id (mkX ns tag ((A_ID, z2s i) :: attrs) kids) = Ok i.
+Proof. unfold x_id, xattr. cbn [x_attrs alookup]. rewrite String.eqb_refl. unfold int_attr. rewrite s2z_z2s. reflexivity. Qed.
+
+Lemma dec_enc_fs_ord g io f ti e :
+  sofas_track g -> NoDup (map (fun v => s_xid (v_sofa v)) (c_views c)) ->
+  hget (c_heap c) (snd io) = Some f -> sch_find s (o_type f) = Some ti -> is_array_name (o_type f) = false ->
+  fs_okb s c ids io = true ->
+  enc_fs fmt_flt s c (fst (ns_of_type (o_type f))) (fst io) f = Ok e ->
+  dec_fs parse_flt s (map g (c_views c)) e = do x <- canon_fs s c io ;; Ok (fst x, norm_cfs s (snd x)).
+Proof.
+  intros HT NDS HG HS HA HO HE. destruct io as [i o]. cbn [fst snd] in *.
+  unfold fs_okb in HO. cbn [snd fst] in HO. rewrite HG, HS, HA in HO.
+  apply andb_prop in HO. destruct HO as [HO H]. apply andb_prop in HO. destruct HO as [_ HTn].
+  apply andb_prop in H. destruct H as [H HF2]. apply andb_prop in H. destruct H as [HND HNI].
+  apply andb_prop in HF2. destruct HF2 as [HFeat HAnn].
+  apply nodups_NoDup in HND. apply negb_true_iff in HNI.
+  assert (~ In A_ID (map fd_xname (ti_feats ti))) as NI by (intros Hi; apply memb_In in Hi; rewrite Hi in HNI; discriminate).
+  unfold tname_okb in HTn. apply andb_prop in HTn. destruct HTn as [HTn _]. apply opt_eqb_str in HTn.
+  unfold enc_fs in HE. change (is_prim_array_name (o_type f) || String.eqb (o_type f) T_FS_ARRAY) with (is_array_name (o_type f)) in HE.
+  rewrite HA, HS in HE.
+  destruct (mapM (enc_feature fmt_flt s c (o_type f) f) (ti_feats ti)) as [cs| |] eqn:HM; try discriminate.
+  cbn [bind] in HE. injection HE as <-.
+  unfold dec_fs. rewrite x_id_cons. cbn [bind x_ns x_tag]. rewrite HTn, HS, HA.
+  set (e := mkX (fst (ns_of_type (o_type f))) (snd (ns_of_type (o_type f))) ((A_ID, z2s i) :: flat_map fst cs) (flat_map snd cs)).
+  assert (isa s (o_type f) T_ANNOTATION = true -> conv_spec f (conv_of (map g (c_views c)) e)) as HC.
+  { intros Hisa. rewrite Hisa in HAnn. apply (conv_of_spec g f e HT NDS).
+    apply (elem_sofa_attr (o_type f) f (ti_feats ti) cs e _ _ i HND NI HFeat HAnn HM eq_refl). }
+  rewrite (dec_enc_feats (o_type f) f (ti_feats ti) cs e _ _ i _ HND NI HFeat HC HM eq_refl).
+  unfold canon_fs. cbn [snd fst]. rewrite HG, HS.
+  destruct (mapM (canon_feature s c f) (ti_feats ti)) as [fs| |]; cbn [bind]; try reflexivity.
+  cbn [fst snd]. f_equal. f_equal. unfold norm_cfs. cbn [cf_type cf_feats].
+  rewrite (not_array_not_str _ HA), HA. f_equal.
+  rewrite sort_s_map by (apply normN_fst). unfold sch_feats. rewrite HS. reflexivity.
 Qed.
 End Val.
 End Flt.
